@@ -37,6 +37,12 @@ VARIANTS = [
     keep('P-created-at-wall-clock', (TR, "        self._lastConnectAttempt = {}", "        self._lastConnectAttempt = {}\n        self._createdAt = time.time()  # informational")),
     keep('P-leader-adopt-explicit-none', (S, "            if self.__raftLeader != node:\n                self.__onLeaderChanged()", "            if self.__raftLeader is None or self.__raftLeader != node:\n                self.__onLeaderChanged()")),
     keep('P-first-conflict-by-guard', (S, "                    if existingEntries[pos][2] != newEntries[pos][2]:\n                        conflictPos = pos\n                        break\n", "                    if conflictPos is None and existingEntries[pos][2] != newEntries[pos][2]:\n                        conflictPos = pos\n")),
+    keep('P-sweep-inlined-at-adopt', (S, "            if self.__raftLeader != node:\n                self.__onLeaderChanged()\n", "            if self.__raftLeader != node:\n                for id_ in sorted(self.__commandsWaitingReply):\n                    self.__commandsWaitingReply[id_](None, FAIL_REASON.LEADER_CHANGED)\n                self.__commandsWaitingReply = {}\n")),
+    keep('P-connecting-early-but-reset', (T, "        self.__lastReadTime = monotonicTime()\n\n        try:\n            self.__socket.connect((host, port))\n        except socket.error as e:\n            if e.errno not in (socket.errno.EINPROGRESS, socket.errno.EWOULDBLOCK):\n                return False\n        self.__fileno = self.__socket.fileno()\n        self.__state = CONNECTION_STATE.CONNECTING\n",
+          "        self.__lastReadTime = monotonicTime()\n        self.__state = CONNECTION_STATE.CONNECTING\n\n        try:\n            self.__socket.connect((host, port))\n        except socket.error as e:\n            if e.errno not in (socket.errno.EINPROGRESS, socket.errno.EWOULDBLOCK):\n                self.__state = CONNECTION_STATE.DISCONNECTED\n                return False\n        self.__fileno = self.__socket.fileno()\n")),
+    keep('P-retry-clock-hoisted', (TR, "        if node in self._lastConnectAttempt and monotonicTime() - self._lastConnectAttempt[node] < self._syncObj.conf.connectionRetryTime:\n            return False\n        self._lastConnectAttempt[node] = monotonicTime()", "        now = monotonicTime()\n        if node in self._lastConnectAttempt and now - self._lastConnectAttempt[node] < self._syncObj.conf.connectionRetryTime:\n            return False\n        self._lastConnectAttempt[node] = monotonicTime()")),
+    keep('P-send-count-branches', (T, "            if res < 0:\n                self.disconnect()\n                return False\n            if res == 0:\n                return False\n            self.__writeBuffer = self.__writeBuffer[res:]\n            return True\n", "            if res > 0:\n                self.__writeBuffer = self.__writeBuffer[res:]\n                return True\n            if res < 0:\n                self.disconnect()\n            return False\n")),
+    keep('P-members-via-local-voters', (S, "cluster = self.__otherNodes | {self.__selfNode}", "voters = self.__otherNodes\n        cluster = voters | {self.__selfNode}")),
     keep('P-rename-commitIndex', (S, '__raftCommitIndex', '__commitIdx')),
     keep('P-rename-votedFor', (S, '__votedForNodeId', '__votedFor')),
     keep('P-rename-log', (S, '__raftLog', '__journal')),
